@@ -285,7 +285,7 @@ def make_case(rng):
 def run_shard(ctx):
     acc = ctx.acc
     rng = ctx.rng("prog")
-    n = 1500 if ctx.quick() else 60000
+    n = 9000 if ctx.quick() else 200000
     for j in range(n):
         if ctx.out_of_time():
             acc.notes.append("time budget reached after %d programs" % j)
